@@ -17,6 +17,6 @@ def queries():
         for op, name in OPS.items():
             for tier, maxs in (('quick', L + 2), ('thorough', 2 * L + 2)):
                 qs.append(Q('%s_%s_%s' % (name, sfx, tier), 'C05_buf.c', 'buffer.cpp',
-                            defs={'SFX': sfx, 'ELEM': elem, 'L': L, 'MAXS': maxs, 'OP': op}, unwind=maxs + 3,
+                            defs={'SFX': sfx, 'ELEM': elem, 'L': L, 'MAXS': maxs, 'OP': op}, unwind=maxs + 3, heap_cap=(maxs + 1) * {'uint8_t': 1, 'uint16_t': 2, 'uint32_t': 4}[elem] + 8,
                             tiers=(tier,), bound={'max_size': maxs, 'type': sfx, 'op': name}))
     return qs
